@@ -7,6 +7,7 @@ L3  the property itself on the implementation: whole array vs subsets / permutat
     with duplicated rows, training data vs labels_ (and KernelRIM's fit-time probabilities), an independent
     single-row router for the trees, the retained hidden state H_.
 """
+import copy
 import inspect
 import json
 import os
@@ -24,6 +25,7 @@ MLP = ["MLPModel", "MLPMMD", "MLPWasserstein"]
 SPMLP = ["SparseMLPModel", "SparseMLPMMD"]
 GRADIENT = LINEAR + MLP + SPMLP
 STATS = {}             # family -> [cases, exact, within tol, max diff]
+OBS = {}               # observations on the examined tree that are reported, not failed (message -> count)
 
 
 def stat(fam, diff):
@@ -818,7 +820,7 @@ def refit_factory(name, rng, nmin, same_d):
     return glabel, K, (lambda: impl.make(name, **kw, **gkw))
 
 
-def model_on_current_fit(chk, key, name, est, B, r, K, replay):
+def model_on_current_fit(chk, key, name, est, B, r, K, replay, train=True):
     """L2: the extracted model evaluated on the attributes the estimator holds NOW vs predict_proba / predict / labels_"""
     Br = np.ascontiguousarray(B[r])
     n, d = B.shape
@@ -830,6 +832,8 @@ def model_on_current_fit(chk, key, name, est, B, r, K, replay):
         return
     Pi, Li = np.asarray(est.predict_proba(Br)), np.asarray(est.predict(Br))
     if name == "KernelRIM":
+        if not train:
+            n = len(np.asarray(est.input_data_))
         if np.asarray(est.input_data_).shape != (n, d) or np.asarray(est.training_kernel_).shape != (n, n) or est.W_.shape != (n, K):
             chk.fail(key + ":stale-attributes", f"after fit on a {B.shape} array: input_data_ {np.asarray(est.input_data_).shape}, "
                      f"training_kernel_ {np.asarray(est.training_kernel_).shape}, W_ {est.W_.shape}", replay, layer="L3")
@@ -854,10 +858,12 @@ def model_on_current_fit(chk, key, name, est, B, r, K, replay):
         compare_model(chk, key, Pm, Lm, Pi, Li, replay)
         return
     _, ms = enc_model(name, est)
-    t = chk.ask(f"c18.model {ms} {enc_mat(B)} {enc_list(r)} {enc_mat(B)}")
+    t = chk.ask(f"c18.model {ms} {enc_mat(B)} {enc_list(r)} {enc_mat(B if train else B[:0])}")
     Pm, Lm = read_pl(t, len(r), K)
-    fl = np.array([t.int() for _ in range(n)], dtype=int)
+    fl = np.array([t.int() for _ in range(n if train else 0)], dtype=int)
     compare_model(chk, key, Pm, Lm, Pi, Li, replay)
+    if not train:
+        return
     PB = np.asarray(est.predict_proba(B))
     mg = margins(PB) if PB.shape == (n, K) else np.full(n, np.inf)
     bad = [int(b) for b in np.nonzero(fl != np.asarray(est.labels_))[0] if mg[b] > MARGIN] if len(est.labels_) == n else [-1]
@@ -946,6 +952,343 @@ def stream_refit(chk, i, rng):
     chk.sample({"stream": "refit", **replay, "used_between_fits": used}, limit=8)
 
 
+# ---------------------------------------------------------------------------------------------- representations (round-3 lessons)
+def obs(msg):
+    OBS[msg] = OBS.get(msg, 0) + 1
+
+
+def snapshot(a):
+    if isinstance(a, np.ndarray):
+        return (a.dtype.str, a.shape, a.tobytes())
+    return copy.deepcopy(a)
+
+
+def unchanged(a, snap):
+    if isinstance(a, np.ndarray):
+        return (a.dtype.str, a.shape, a.tobytes()) == snap
+    return a == snap
+
+
+def representations(Q, rng):
+    """the same values in other representations (Q: float64 C-contiguous, values exactly representable in float32)"""
+    m, d = Q.shape
+    big = rng.normal(size=(2 * m, d))
+    big[::2] = Q
+    wide = rng.normal(size=(m, 2 * d))
+    wide[:, ::2] = Q
+    ro = Q.copy()
+    ro.setflags(write=False)
+    out = [("fortran", np.asfortranarray(Q)), ("strided-rows", big[::2]), ("strided-cols", wide[:, ::2]),
+           ("negative-strides", np.ascontiguousarray(Q[::-1, ::-1])[::-1, ::-1]), ("read-only", ro),
+           ("list", Q.tolist()), ("tuple", tuple(tuple(r) for r in Q.tolist())), ("float32", Q.astype(np.float32))]
+    if np.all(Q == np.round(Q)):
+        out += [("int64", Q.astype(np.int64)), ("int32", Q.astype(np.int32)), ("int-list", Q.astype(int).tolist())]
+        if np.all((Q == 0) | (Q == 1)):
+            out.append(("bool", Q.astype(bool)))
+    return out
+
+
+def take(V, r):
+    if isinstance(V, np.ndarray):
+        return V[r]
+    return type(V)(V[k] for k in r)
+
+
+def compare_to_reference(chk, key, est, V, Lref, Pref, replay, tolscale=1.0):
+    """predict / predict_proba of the representation V must be the float64 reference, V itself untouched"""
+    snap = snapshot(V)
+    try:
+        L = np.asarray(est.predict(V))
+        P = np.asarray(est.predict_proba(V)) if Pref is not None else None
+    except Exception as e:  # noqa
+        chk.fail(key + ":raises", f"predict / predict_proba raised {type(e).__name__}: {e} although the float64 C-contiguous reference call succeeds", replay, layer="L3")
+        return
+    if not unchanged(V, snap):
+        chk.fail(key + ":argument-modified", "predict / predict_proba modified the caller's array", replay, layer="L3")
+    if L.shape != Lref.shape or (P is not None and P.shape != Pref.shape):
+        chk.fail(key + ":shape", f"result shapes {L.shape}/{None if P is None else P.shape} differ from the reference {Lref.shape}", replay, layer="L3")
+        return
+    bad = np.nonzero(L != Lref)[0]
+    if P is not None:
+        diff = float(np.max(np.abs(P - Pref))) if P.size else 0.0
+        stat("repr", diff)
+        if not diff <= TOL_P * tolscale:
+            chk.fail(key + ":proba", f"predict_proba differs from the float64 reference by {diff:.3e}", replay, layer="L3")
+        mg = margins(Pref)
+        bad = [b for b in bad if mg[b] > MARGIN]
+    if len(bad):
+        chk.fail(key + ":labels", f"predict differs from the float64 reference at rows {[int(b) for b in bad][:6]}", replay, layer="L3")
+
+
+def repr_training_data(rng, n, d):
+    X = np.clip(np.round(impl.blobs(rng, n, d, k=3) * 8.0) / 8.0, -12.0, 12.0)
+    X[int(rng.integers(0, n)), int(rng.integers(0, d))] = -5.5
+    return np.ascontiguousarray(X)
+
+
+def stream_repr(chk, i, rng):
+    name = ALL_INDUCTIVE[i % len(ALL_INDUCTIVE)]
+    n, d = int(rng.integers(8, 20)), int(rng.integers(1, 4))
+    X = repr_training_data(rng, n, d)
+    glabel, K, factory = refit_factory(name, rng, n, True)
+    est = factory().fit(X)
+    key = "repr:" + ("linear" if name in LINEAR else "mlp" if name in MLP + SPMLP else name.lower())
+    replay = {"estimator": name, "config": glabel, "K": K, "n": n, "d": d}
+    proba = name != "Kauri"
+    tolscale = 1.0 if name != "KernelRIM" else 1.0 + float(np.abs(est.training_kernel_).max()) * (1.0 + float(np.abs(est.W_).max()))
+    m = int(rng.integers(4, 10))
+    queries = [("integers", rng.integers(-6, 7, size=(m, d)).astype(float)), ("zero-one", rng.integers(0, 2, size=(m, d)).astype(float)),
+               ("eighths", rng.integers(-48, 49, size=(m, d)) / 8.0)]
+    if name == "Kauri":      # integer queries right next to the (fractional, often negative) thresholds
+        ths = [(f, t) for f, t in zip(est.tree_.features, est.tree_.thresholds) if f is not None]
+        for f, t in ths[:m]:
+            queries[0][1][int(rng.integers(0, m)), f] = float(np.floor(t) if rng.random() < 0.5 else np.ceil(t))
+        frac = sum(1 for _, t in ths if t != np.round(t))
+    elif name == "Douglas":
+        frac = sum(int(np.sum(np.asarray(c) != np.round(c))) for _, c in est.cut_points_list_)
+    else:
+        frac = 1
+    distinct = set()
+    for qtag, Q in queries:
+        Q = np.ascontiguousarray(Q)
+        Lref = np.asarray(est.predict(Q))
+        Pref = np.asarray(est.predict_proba(Q)) if proba else None
+        distinct |= set(Lref.tolist())
+        for vtag, V in representations(Q, rng):
+            rp = dict(replay, query=qtag, representation=vtag, Q=Q.tolist())
+            compare_to_reference(chk, f"{key}:{vtag}", est, V, Lref, Pref, rp, tolscale)
+            sels = [("subset", sorted(rng.choice(m, size=int(rng.integers(1, m)), replace=False).tolist())), ("permutation", rng.permutation(m).tolist()),
+                    ("single", [int(rng.integers(0, m))]), ("single", [int(rng.integers(0, m))])]
+            for stag, r in sels:
+                compare_to_reference(chk, f"{key}:{vtag}:{stag}", est, take(V, r), Lref[r], None if Pref is None else Pref[r], dict(rp, selection=stag, r=r), tolscale)
+            chk.dist["repr-variant:" + vtag] += 1
+        model_on_current_fit(chk, key + ":" + qtag, name, est, Q, list(range(m)), K, dict(replay, query=qtag), train=False)
+    # fit on another representation of the training values: same labels_, predictions, training array untouched
+    reps = representations(X, rng)
+    for k in rng.choice(len(reps), size=2, replace=False):
+        vtag, V = reps[int(k)]
+        rp = dict(replay, fit_representation=vtag)
+        snap = snapshot(V)
+        try:
+            e2 = factory().fit(V)
+            L2 = np.asarray(e2.predict(V))
+        except Exception as e:  # noqa
+            chk.fail(f"{key}:fit:{vtag}:raises", f"fit / predict on the training values as {vtag} raised {type(e).__name__}: {e}", rp, layer="L3")
+            continue
+        if not unchanged(V, snap):
+            chk.fail(f"{key}:fit:{vtag}:argument-modified", "fit / predict modified the caller's training array", rp, layer="L3")
+        Pt = np.asarray(est.predict_proba(X)) if proba else None
+        mg = margins(Pt) if proba else np.full(n, np.inf)
+        for what, a, b in (("labels_ vs reference fit", np.asarray(e2.labels_), np.asarray(est.labels_)), ("predict(X_train) vs labels_", L2, np.asarray(e2.labels_))):
+            bad = [int(v) for v in np.nonzero(a != b)[0] if mg[v] > MARGIN] if a.shape == b.shape else [-1]
+            if bad:
+                chk.fail(f"{key}:fit:{vtag}:labels", f"fitted on the training values as {vtag}: {what} differ at rows {bad[:6]}", rp, layer="L3")
+        if proba:
+            P2 = np.asarray(e2.predict_proba(V))
+            if P2.shape != Pt.shape or np.max(np.abs(P2 - Pt)) > 1e-9:
+                chk.fail(f"{key}:fit:{vtag}:proba", "fitted on another representation of the same training values: predict_proba differs from the reference fit", rp, layer="L3")
+        chk.dist["repr-fit:" + vtag] += 1
+    chk.traces += 1
+    chk.dist["repr:" + name] += 1
+    chk.count(("repr", name, glabel, n, d, K, frac) if frac >= 1 and len(distinct) >= 2 else None)
+
+
+# ---------------------------------------------------------------------------------------------- degenerate sizes / boundary values
+DEGENERATE = ["K=1", "K=n", "d=1", "n=1", "batch=n", "batch>n", "huge-query", "tiny-query", "cuts-on-data"]
+
+
+def stream_degenerate(chk, i, rng):
+    name = ALL_INDUCTIVE[i % len(ALL_INDUCTIVE)]
+    case = DEGENERATE[(i // len(ALL_INDUCTIVE) * 4 + i) % len(DEGENERATE)]
+    n, d = int(rng.integers(6, 16)), int(rng.integers(1, 4))
+    K, bs = int(rng.integers(2, 4)), None
+    if case == "K=1":
+        K = 1
+    elif case == "K=n":
+        n = int(rng.integers(2, 5))
+        K = n
+    elif case == "d=1":
+        d = 1
+    elif case == "n=1":
+        n, K = 1, 1
+    elif case == "batch=n":
+        bs = n
+    elif case == "batch>n":
+        bs = n + int(rng.integers(1, 5))
+    X = np.ascontiguousarray(impl.blobs(rng, n, d, k=max(K, 2)))
+    kw = dict(n_clusters=K, max_clusters=K, max_iter=2, batch_size=bs, learning_rate=0.05, n_hidden_dim=int(rng.integers(1, 5)),
+              random_state=int(rng.integers(0, 10 ** 6)))
+    glabel = ""
+    if name in impl.GENERIC_GEMINI:
+        gs = impl.all_geminis()
+        glabel, fac = gs[int(rng.integers(0, len(gs)))]
+        kw["gemini"] = fac()
+    if name == "Kauri" and case == "cuts-on-data":
+        kw.update(max_depth=1, max_leaves=2)
+    replay = {"estimator": name, "case": case, "gemini": glabel, "n": n, "d": d, "K": K, "batch_size": bs}
+    est = impl.make(name, **kw)
+    try:
+        est.fit(X)
+    except Exception as e:  # noqa  (whether fit succeeds here is not this property; reported, not failed)
+        obs(f"{name}.fit raised {type(e).__name__} in the degenerate configuration '{case}' (gemini {glabel or 'default'}): {str(e)[:90]}")
+        chk.dist["degenerate-fit-raised"] += 1
+        chk.count(None)
+        return
+    key = "degenerate:" + case
+    Xn = fresh_array(rng, X)
+    if case == "tiny-query":
+        pool = np.array([5e-324, -5e-324, -0.0, 0.0, 1e-300, -1e-300, 2.2250738585072014e-308, np.nextafter(0.3, 1), 0.3])
+        Xn = np.ascontiguousarray(rng.choice(pool, size=Xn.shape))
+    if name == "Kauri":
+        Lt, _ = check_tree(chk, key + ":train", est.tree_, X, rng, replay, est.predict)
+        if Lt is not None:
+            if not np.array_equal(Lt, np.asarray(est.labels_)):
+                chk.fail(key + ":train-labels", "Kauri.predict(X_train) does not reproduce labels_", replay, layer="L3")
+            partition_consistency(chk, key, est, X, replay)
+        if case == "huge-query":
+            Xn[int(rng.integers(0, len(Xn)))] = rng.choice([1e300, -1e300, 1.7e308], size=d)
+        check_tree(chk, key + ":fresh", est.tree_, Xn, rng, dict(replay, array="fresh"), est.predict)
+        chk.dist["degenerate:" + case] += 1
+        chk.count(("degenerate", name, case, n, d, K))
+        return
+    if name == "Douglas" and case == "cuts-on-data":
+        # cut points sitting exactly on the feature minimum / maximum / on two adjacent doubles of the data
+        newcuts = []
+        for f, c in est.cut_points_list_:
+            col = X[:, f]
+            cand = [col.min(), col.max(), float(np.nextafter(col.max(), np.inf)), float(np.median(col))]
+            newcuts.append((f, np.array([cand[int(rng.integers(0, len(cand)))] for _ in range(len(c))])))
+        est.cut_points_list_ = newcuts
+    tolscale = 1.0 if name != "KernelRIM" else 1.0 + float(np.abs(est.training_kernel_).max()) * (1.0 + float(np.abs(est.W_).max()))
+    Lt, Pt, _ = rowwise_suite(chk, key + ":train", "degenerate", est, X, rng, dict(replay, array="train"), tolscale=tolscale)
+    if Pt is not None and Pt.shape == (n, K):
+        if not (name == "Douglas" and case == "cuts-on-data"):
+            train_labels(chk, key, est, X, Lt, Pt, replay)
+            model_on_current_fit(chk, key, name, est, X, list(range(n)), K, replay)
+        else:
+            model_on_current_fit(chk, key, name, est, X, list(range(n)), K, replay, train=False)
+    if case == "huge-query":
+        # a row that overflows must not change any other row, and gives the same (possibly nan) result alone
+        j = int(rng.integers(0, len(Xn)))
+        Xh = Xn.copy()
+        Xh[j] = rng.choice([1e300, -1e300, 1e200], size=d)
+        try:
+            Pn, Ph, Pj = np.asarray(est.predict_proba(Xn)), np.asarray(est.predict_proba(Xh)), np.asarray(est.predict_proba(Xh[j:j + 1]))
+            Lh, Lj = np.asarray(est.predict(Xh)), np.asarray(est.predict(Xh[j:j + 1]))
+            keep = [k for k in range(len(Xn)) if k != j]
+            if not np.all(np.abs(Ph[keep] - Pn[keep]) <= TOL_P * tolscale):
+                chk.fail(key + ":other-rows", "a query row of magnitude 1e300 changed the probabilities of OTHER rows of the array", dict(replay, row=j, Xh=Xh.tolist()), layer="L3")
+            fin = np.isfinite(Ph[j]).all() and np.isfinite(Pj[0]).all()
+            if not (np.array_equal(Ph[j], Pj[0], equal_nan=True) or (fin and np.max(np.abs(Ph[j] - Pj[0])) <= TOL_P * tolscale)):
+                chk.fail(key + ":own-row", "a query row of magnitude 1e300 gets different probabilities alone and inside the array", dict(replay, row=j, Xh=Xh.tolist()), layer="L3")
+            if fin and margins(Ph[j:j + 1])[0] > MARGIN and Lh[j] != Lj[0]:
+                chk.fail(key + ":own-label", "a query row of magnitude 1e300 gets different labels alone and inside the array", dict(replay, row=j), layer="L3")
+            if not np.isfinite(Ph[j]).all():
+                obs(f"predict_proba returns non-finite probabilities for a finite query row of magnitude 1e300 ({'KernelRIM' if name == 'KernelRIM' else 'Douglas' if name == 'Douglas' else 'gradient models'}); the other rows are unaffected")
+        except Exception as e:  # noqa
+            chk.fail(key + ":raises", f"predict_proba on a finite array containing a 1e300 row raised {type(e).__name__}: {e}", replay, layer="L3")
+    else:
+        Ln, Pn, _ = rowwise_suite(chk, key + ":fresh", "degenerate", est, Xn, rng, dict(replay, array="fresh"), tolscale=tolscale)
+        if Pn is not None and Pn.shape == (len(Xn), K) and np.isfinite(Pn).all():
+            model_on_current_fit(chk, key + ":fresh", name, est, Xn, list(range(len(Xn))), K, dict(replay, array="fresh"), train=False)
+    chk.traces += 1
+    chk.dist["degenerate:" + case] += 1
+    chk.count(("degenerate", name, case, glabel, n, d, K))
+
+
+# ---------------------------------------------------------------------------------------------- other public routes to the predictions
+def stream_routes(chk, i, rng):
+    """fit_predict vs fit / predict, score vs predict_proba, precomputed affinities, sparse path() then predict;
+    every argument array is compared with a copy taken before the calls (also passed read-only)"""
+    name = ALL_INDUCTIVE[i % len(ALL_INDUCTIVE)]
+    n, d = int(rng.integers(8, 18)), int(rng.integers(2, 5))
+    if name == "Douglas":
+        d = min(d, 3)
+    X = np.ascontiguousarray(impl.blobs(rng, n, d, k=3))
+    K = int(rng.integers(2, 4))
+    bs = [None, n, n + 2, max(1, n // 3)][int(rng.integers(0, 4))]
+    seed = int(rng.integers(0, 10 ** 6))
+    y = None
+    kw = dict(n_clusters=K, max_clusters=K, max_iter=2, batch_size=bs, learning_rate=0.05, n_hidden_dim=3, random_state=seed, alpha=0.3)
+    pre = rng.random() < 0.5 and (name in impl.GENERIC_GEMINI or name == "Kauri")
+    if pre:
+        y = X @ X.T - 0.3                                   # a precomputed affinity with negative entries
+        if name == "Kauri":
+            kw["kernel"] = "precomputed"
+
+    def factory():
+        k2 = dict(kw)
+        if pre and name != "Kauri":
+            k2["gemini"] = impl.G.MMDGEMINI(kernel="precomputed", ovo=bool(seed % 2))
+        return impl.make(name, **k2)
+    replay = {"estimator": name, "n": n, "d": d, "K": K, "batch_size": bs, "precomputed": bool(pre)}
+    key = "routes:" + ("linear" if name in LINEAR else "mlp" if name in MLP + SPMLP else name.lower())
+    Xro = X.copy()
+    Xro.setflags(write=False)
+    yro = None if y is None else y.copy()
+    if yro is not None:
+        yro.setflags(write=False)
+    sx, sy = snapshot(X), snapshot(y)
+    try:
+        e1 = factory().fit(X, y)
+        e2 = factory()
+        lp = np.asarray(e2.fit_predict(X, y))
+        e3 = factory().fit(Xro, yro)
+        L1 = np.asarray(e1.predict(X))
+        L3 = np.asarray(e3.predict(Xro))
+        P1 = np.asarray(e1.predict_proba(X)) if name != "Kauri" else None
+        sc = e1.score(X, y)
+    except Exception as e:  # noqa
+        chk.fail(key + ":raises", f"fit / fit_predict / predict / score on valid (read-only) arguments raised {type(e).__name__}: {e}", replay, layer="L3")
+        chk.count(None)
+        return
+    if not (unchanged(X, sx) and unchanged(y, sy)):
+        chk.fail(key + ":argument-modified", "fit / fit_predict / predict / predict_proba / score modified X or the precomputed affinity", replay, layer="L3")
+    mg = margins(P1) if P1 is not None else np.full(n, np.inf)
+    for what, a, b in (("fit_predict(X) vs its labels_", lp, np.asarray(e2.labels_)), ("fit_predict(X) vs fit(X).labels_ (same random_state)", lp, np.asarray(e1.labels_)),
+                       ("predict(X) vs labels_", L1, np.asarray(e1.labels_)), ("read-only fit: predict(X) vs labels_ of the writable fit", L3, np.asarray(e1.labels_))):
+        bad = [int(v) for v in np.nonzero(a != b)[0] if mg[v] > MARGIN] if a.shape == b.shape else [-1]
+        if bad:
+            chk.fail(key + ":fit-predict", f"{what}: differ at rows {bad[:6]}", replay, layer="L3")
+    # score is the objective of predict_proba(X) / predict(X) on the affinity of X
+    try:
+        if name == "Kauri":
+            from gemclus.tree._utils import gemini_objective
+            expect = float(gemini_objective(L1, np.ascontiguousarray(e1._compute_kernel(X, y), dtype=float)))
+        else:
+            g = e1.get_gemini()
+            expect = float(np.asarray(g(P1, g.compute_affinity(X, y))).item())
+        if not abs(float(sc) - expect) <= 1e-9 * (1 + abs(expect)):
+            chk.fail(key + ":score", f"score(X) = {sc!r} is not the objective of the predictions of X ({expect!r})", replay, layer="L3")
+    except Exception as e:  # noqa
+        raise HarnessError(f"reference score computation failed: {type(e).__name__}: {e}")
+    model_on_current_fit(chk, key, name, e1, X, list(range(n)), K, replay)
+    stale = None
+    if name in impl.SPARSE:
+        e4 = factory()
+        try:
+            e4.path(X, y, alpha_multiplier=2.0, min_features=max(1, d - 1), max_patience=2)
+        except Exception as e:  # noqa
+            chk.fail(key + ":path-raises", f"path() raised {type(e).__name__}: {e}", replay, layer="L3")
+            e4 = None
+        if e4 is not None:
+            if not (unchanged(X, sx) and unchanged(y, sy)):
+                chk.fail(key + ":argument-modified", "path() modified X or the precomputed affinity", replay, layer="L3")
+            L4, P4, _ = rowwise_suite(chk, key + ":after-path", "routes", e4, X, rng, dict(replay, after="path"))
+            if P4 is not None and P4.shape == (n, K):
+                model_on_current_fit(chk, key + ":after-path", name, e4, X, list(range(n)), K, dict(replay, after="path"), train=False)
+                if hasattr(e4, "labels_"):
+                    m4 = margins(P4)
+                    stale = any(m4[v] > MARGIN for v in np.nonzero(np.asarray(e4.labels_) != L4)[0])
+                    if stale:
+                        obs("after path() the sparse estimators keep the labels_ of the initial fit: predict(X_train) differs from labels_ "
+                            "(the weights moved along the path; labels_ is not refreshed)")
+    chk.traces += 1
+    chk.dist["routes:" + name] += 1
+    chk.dist["routes:precomputed" if pre else "routes:named-affinity"] += 1
+    chk.count(("routes", name, n, d, K, bs, bool(pre), stale))
+
+
 def stream_malformed(chk, i, rng):
     """start nodes outside the tree, truncated arrays, too little fuel; unfitted / wrongly shaped predict input"""
     d = 2
@@ -995,7 +1338,8 @@ def stream_malformed(chk, i, rng):
 
 
 STREAMS = {"gradient": (stream_gradient, 390, 3900), "krim": (stream_krim, 84, 840), "douglas": (stream_douglas, 60, 600),
-           "kauri": (stream_kauri, 120, 1800), "tree": (stream_tree, 300, 4500), "kauri_adv": (stream_kauri_adv, 120, 2000), "refit": (stream_refit, 150, 1800), "malformed": (stream_malformed, 24, 240)}
+           "kauri": (stream_kauri, 120, 1800), "tree": (stream_tree, 300, 4500), "kauri_adv": (stream_kauri_adv, 120, 2000), "refit": (stream_refit, 150, 1800), "repr": (stream_repr, 45, 600), "degenerate": (stream_degenerate, 54, 720), "routes": (stream_routes, 30, 450),
+           "malformed": (stream_malformed, 24, 240)}
 
 
 def main():
@@ -1014,13 +1358,15 @@ def main():
             if chk.l1_broken:
                 cnt *= 3
             chk.run_stream(name, guarded(name, fn), cnt)
+    for k, v in sorted(OBS.items()):
+        chk.notes.append(f"observation on the examined tree (not a failure of this check): {k} [{v} case(s)]")
     fams = {f: {"selections": s[0], "bitwise_equal": s[1], "within_1e-12": s[2], "max_abs_diff": s[3]} for f, s in STATS.items()}
     chk.notes.append("row-wise probabilities, measured: " + "; ".join(
         f"{f}: {s[1]}/{s[0]} selections bit-identical, {s[2]} within 1e-12, max |diff| {s[3]:.2e}" for f, s in STATS.items()))
     chk.finish(rule="streams: real fits (2-3 epochs, every GEMINI on the generic estimators, all 12 gradient estimators, KernelRIM with 6 named kernels and a callable, "
                     "Douglas, Kauri) then predict / predict_proba on the training array and on a fresh array (fresh rows, copies of training rows, duplicated rows) "
                     "as a whole vs a random subset, a permutation, the reversed array, a selection with repetitions and every single row; extracted forward pass / "
-                    "Tree.predict model on the recorded parameters vs the implementation on X[r]; refit stream: every inductive estimator fitted on A, used (predict / predict_proba / score), fitted again on B (other n, sometimes other d) on the same object, then the same checks on B plus agreement with a fresh estimator; kauri_adv stream: Kauri (precomputed block kernels and named kernels) on training sets whose groups are separated by adjacent doubles (0.3 | 0.1+0.2, x | nextafter x), with ties, duplicates, negative zero, denormal and huge magnitudes: predict(X_train) = labels_, every stored threshold reproduces the partition made by fit (from leaves_), routing model on the stored tree = labels_, fresh points on / next to every threshold (non-trivial = at least one split between adjacent doubles); hand-grown trees through Tree._add_child with any start node, "
+                    "Tree.predict model on the recorded parameters vs the implementation on X[r]; refit stream: every inductive estimator fitted on A, used (predict / predict_proba / score), fitted again on B (other n, sometimes other d) on the same object, then the same checks on B plus agreement with a fresh estimator; kauri_adv stream: Kauri (precomputed block kernels and named kernels) on training sets whose groups are separated by adjacent doubles (0.3 | 0.1+0.2, x | nextafter x), with ties, duplicates, negative zero, denormal and huge magnitudes: predict(X_train) = labels_, every stored threshold reproduces the partition made by fit (from leaves_), routing model on the stored tree = labels_, fresh points on / next to every threshold (non-trivial = at least one split between adjacent doubles); repr stream: queries (integer-valued, 0/1-valued, multiples of 1/8) against models with fractional parameters presented as int64/int32/bool/float32/Fortran/strided views/read-only/list/tuple, whole, in subsets, permuted and row by row = the float64 C-contiguous reference, caller arrays unchanged; fit on the same representations; degenerate stream: K=1, K=n, d=1, n=1, batch_size=n and >n, 1e300 / denormal / -0.0 / adjacent-double query rows (a row that overflows must not change other rows), Douglas cut points on the feature min/max; routes stream: fit_predict vs fit, score vs predict_proba, precomputed affinities, sparse path() then predict, arguments compared with copies; hand-grown trees through Tree._add_child with any start node, "
                     "empty arrays, NaN/inf entries, values on thresholds. non-trivial = at least two distinct labels (gradient models) / two distinct leaves reached "
                     "(trees) so that a constant predictor would not pass; distinct = distinct (estimator, objective, n, d, K, m, ...) signature",
                extra={"rowwise_probability_differences": fams})
